@@ -468,13 +468,15 @@ Proof.
     do 6 (destruct q as [q|q|]; try (rewrite (IH Hs); reflexivity)); congruence.
 Qed.
 
-Lemma ends_with_quote_plain s : forallb plain_char s = true -> ends_with_quote s = false.
+Lemma ends_with_qb_plain s :
+  forallb plain_char s = true -> last s 0%N <> 92%N -> ends_with_qb s = false.
 Proof.
   induction s as [|c s IH]; [reflexivity|].
-  intros H; simpl in H; apply andb_prop in H; destruct H as [Hc Hs].
+  intros H Hl; simpl in H; apply andb_prop in H; destruct H as [Hc Hs].
   destruct s as [|c2 s2].
-  - simpl. unfold plain_char in Hc. destruct (c =? 34)%N; [|reflexivity].
-    rewrite !Bool.orb_true_r in Hc; discriminate.
+  - cbn [ends_with_qb last] in *. unfold plain_char in Hc.
+    destruct (N.eqb_spec c 92) as [->|_]; [congruence|]. rewrite Bool.orb_false_r.
+    destruct (c =? 34)%N; [|reflexivity]. rewrite !Bool.orb_true_r in Hc; discriminate.
   - apply IH; assumption.
 Qed.
 
@@ -488,10 +490,11 @@ Theorem description_roundtrip_single_line o desc depth :
   blank desc = false ->
   length desc < 70 ->
   length desc <= 120 - length (ind o depth) ->
+  last desc 0%N <> 92%N ->
   description_body o desc depth = desc
   /\ block_string_value (unescape_triple (description_body o desc depth)) = desc.
 Proof.
-  intros Hp Hb Hl Hw.
+  intros Hp Hb Hl Hw Hlast.
   assert (Hbody : description_body o desc depth = desc).
   { unfold description_body. rewrite (split_nl_plain _ Hp).
     remember (120 - length (ind o depth)) as m eqn:Hm.
@@ -503,7 +506,7 @@ Proof.
     cbn [app length Nat.eqb].
     match goal with |- context [andb (andb true ?b) _] =>
       replace b with true by (symmetry; exact Hl') end.
-    rewrite (ends_with_quote_plain _ Hp). cbn [andb negb].
+    rewrite (ends_with_qb_plain _ Hp Hlast). cbn [andb negb].
     apply escape_triple_plain; assumption. }
   split; [assumption|].
   rewrite Hbody, (unescape_triple_plain _ Hp).
@@ -768,7 +771,7 @@ Theorem description_roundtrip_block o desc depth :
   forallb clean_line lines = true ->
   forallb (fun l => Nat.leb (length l) (120 - length indent)) lines = true ->
   hd [] lines <> [] -> last lines [] <> [] ->
-  (2 <= length lines \/ 70 <= length (hd [] lines)) ->
+  (2 <= length lines \/ 70 <= length (hd [] lines) \/ ends_with_qb (hd [] lines) = true) ->
   block_string_value (unescape_triple (description_body o desc depth)) = desc.
 Proof.
   intros lines indent Hind Hclean Hlen Hfirst Hlast Hblock.
@@ -783,11 +786,12 @@ Proof.
                   = join nl ([] :: map (fun l => indent ++ l) (l0 :: rest) ++ [indent])).
   { unfold description_body. fold indent. fold lines. rewrite Hlines.
     rewrite (wrapped_id _ _ Hlen). cbn [hd].
-    assert (Hcond : Nat.eqb (length (l0 :: rest)) 1 && Nat.ltb (length l0) 70 && negb (ends_with_quote l0) = false).
-    { destruct Hblock as [H2|H70].
+    assert (Hcond : Nat.eqb (length (l0 :: rest)) 1 && Nat.ltb (length l0) 70 && negb (ends_with_qb l0) = false).
+    { destruct Hblock as [H2|[H70|Hqb]].
       - destruct rest; [simpl in H2; lia|reflexivity].
       - replace (Nat.ltb (length l0) 70) with false by (symmetry; apply Nat.ltb_ge; exact H70).
-        rewrite Bool.andb_false_r. reflexivity. }
+        rewrite Bool.andb_false_r. reflexivity.
+      - rewrite Hqb. rewrite Bool.andb_false_r. reflexivity. }
     rewrite Hcond.
     assert (Hhlw : match l0 with c :: _ => py_space c | [] => false end = false).
     { unfold clean_line in Hl0. apply andb_prop in Hl0; destruct Hl0 as [_ H]. destruct l0; [reflexivity|].
